@@ -396,7 +396,7 @@ Section QM.
     forall p, In p (pairs_of (vH res)) -> In p inputs.
   Proof.
     intros HU (Hok & Hun) E p Hp. pose proof HU as ((HR & Ek & Hsum) & Hgad & En & Hgn).
-    unfold VarOptUnion.Qresult_gen, get_result_gen in E. set (g := ugad u) in *.
+    unfold VarOptUnion.Qresult_gen, get_result_gen, get_result_gen2 in E. set (g := ugad u) in *.
     pose proof HR as (HM & Hmb & Hpos & Hk1 & Hmode).
     assert (Hpairs : forall H' : list slot, incl H' (vH g) -> (forall y, In y H' -> s_mark y = false) ->
                                            In p (pairs_of H') -> In p inputs).
@@ -405,10 +405,13 @@ Section QM.
     - injection E as <- <-. unfold copy_as in Hp. cbn [vH] in Hp.
       apply (Hpairs (vH g) (incl_refl _)); [|exact Hp]. apply cntm_zero. rewrite <- (Hok Hgad). exact Ez.
     - destruct (_ && _ && _ && _)%bool.
-      + fold (Qmark_moving Item) in E. unfold Qmark_moving, mark_moving in E. fold g in E.
+      + unfold mark_moving_gen in E. fold g in E.
         destruct (Qltb Qeps10 _ || Qltb _ (- (1) * Qeps10))%bool; [discriminate|]. injection E as <- <-.
-        cbn [vH] in Hp. unfold VarOptProofs.pairs_of in Hp. rewrite map_map in Hp. cbn [s_item s_wt] in Hp.
-        apply in_map_iff in Hp. destruct Hp as (y & <- & Hy). apply filter_In in Hy. destruct Hy as [Hy Hm].
+        cbn [vH] in Hp. unfold VarOptProofs.pairs_of in Hp.
+        apply in_map_iff in Hp. destruct Hp as (z & <- & Hz).
+        apply (Permutation_in z (Permutation_sym (Hconv_perm Item ditem _))) in Hz.
+        apply in_map_iff in Hz. destruct Hz as (y & <- & Hy). cbn [s_item s_wt].
+        apply filter_In in Hy. destruct Hy as [Hy Hm].
         apply Hun; [exact Hy|]. now apply negb_true_iff in Hm.
       + fold (VarOptUnion.Qmigrate Item ditem cu) in E.
         assert (HGc : G (copy_as Item Q g false (un u))).
